@@ -189,7 +189,9 @@ fn drive_simple(opts: &Opts, level: &str, label: &str, cases: u64, rule: &str, f
 
 fn main() {
     let opts = Opts::parse();
-    std::panic::set_hook(Box::new(|_| {}));
+    if std::env::var_os("IOSIM_PANIC_MESSAGES").is_none() {
+        std::panic::set_hook(Box::new(|_| {}));
+    }
     if let Some(p) = &opts.replay {
         let v = read_json(p);
         let prop = v["property"].as_str().unwrap_or(&opts.property).to_string();
